@@ -484,6 +484,12 @@ func (t *TrunBox) GetSampleNrForRelativeTime(deltaTime uint64, defaultSampleDura
 		return 0, fmt.Errorf("no samples in trun")
 	}
 	if !t.HasSampleDuration() {
+		if defaultSampleDuration == 0 { // all samples start at relative time 0
+			if deltaTime == 0 {
+				return 1, nil
+			}
+			return 0, fmt.Errorf("did not find time %d, all samples have duration 0", deltaTime)
+		}
 		nr := deltaTime / uint64(defaultSampleDuration)
 		if nr >= uint64(sampleCount) {
 			return 0, fmt.Errorf("time %d is bigger than largest time %d", deltaTime, (sampleCount-1)*defaultSampleDuration)
